@@ -10,16 +10,16 @@ import random
 
 from harness import core, inputs, trees
 
-GEN = ['gen_escapes']
-THEOREMS = ['C08_balanced', 'C08_items_ok', 'C08_raw_origin', 'C08_escapers']
+GEN = ['gen_escapes', 'gen_tables', 'gen_regex', 'gen_config']
+THEOREMS = ['C08_balanced', 'C08_items_ok', 'C08_raw_origin', 'C08_escapers', 'C08_parsed_trees_have_ranged_attributes', 'C08_items_ok_for_every_input']
 TRUSTED = ['hand-written model coq/theories/Model/HtmlRenderer.v of html_renderer.py (structure of the templates); '
            'escape chain, URL safe set and the escaping function at every template hole are REGENERATED from the source '
            '(harness/gen/gen_escapes.py, Python ast) on every run',
            'Base/PyStr.v re-implements html.escape and urllib.parse.quote (differentially tested on every code point)',
            'the tree dumper/loader harness/trees.py']
-ASSUMPTIONS = ['trees are shaped as the token constructors build them (wf_shape); attribute facts the renderer relies on the parser for '
-               '(heading level 1..6, table alignment in {None,0,1}, e-mail autolink target free of quotes/angles) are the hypothesis wf_attrs, '
-               'monitored on every dumped real tree',
+ASSUMPTIONS = ['the theorems over ALL token trees carry the hypothesis wf_attrs (heading level 1..6); it is PROVED for every tree the parser model produces '
+               '(C08_parsed_trees_have_ranged_attributes: the level is the length of the # group of the regenerated Heading.pattern, bounded by the group-length '
+               'analysis of Proofs/ReGroups.v), so C08_items_ok_for_every_input has no hypothesis; for trees built by hand it is still monitored on every dumped tree',
                'code points are Unicode scalar values (urllib.parse.quote raises on lone surrogates)']
 
 OPTS = [(pht, dq, sq) for pht in (True, False) for dq in (False, True) for sq in (False, True)]
